@@ -11,6 +11,8 @@ EQUIVALENT = {
     "student-absolute-regularisation": "unreachable while the known finding C19 nu-estimate-infinite stands (fit_mvstud returns before the first Sigma update)",
     "syst-always-renormalise-off": "only changes behaviour for weight sums outside the property's domain (|sum-1| > sqrt(eps))",
     "train-labels-from-fit": "labels_ and predict() name the same clusters; membership differences do not contradict the property",
+    "resume-skips-random-state": "the constructor already seeds with random_state and nothing draws before the checkpoint is loaded, so the re-seed on load is redundant for construct+resume",
+    "save-every-off-by-one-iter": "the property constrains what a written checkpoint contains, not which iterations get one",
     "volume-unweighted-mean": "the unweighted mean is affine-equivariant too: value changes, the stated invariances do not",
 }
 
@@ -199,9 +201,9 @@ m("rwm-asymmetric-drift", "tempest/mcmc.py",
   "        proposal = self.u[k] + sigma * chol_cov @ np.random.randn(self.n_dim)", "        proposal = self.u[k] + sigma * chol_cov @ (np.random.randn(self.n_dim) + 0.05)", ["C03"])
 m("tpcn-accept-ge", "tempest/mcmc.py",
   "            mask_accept = u_rand < alpha", "            mask_accept = u_rand < alpha * 1.05", ["C03"])
-m("resume-skips-random-state", "tempest/core.py",
+eq("resume-skips-random-state", "tempest/core.py",
   "        if \"random_state\" in d and d[\"random_state\"] is not None:\n            np.random.seed(d[\"random_state\"])", "        if False:\n            pass", [ "C09"])
-m("save-every-off-by-one-iter", "tempest/core.py",
+eq("save-every-off-by-one-iter", "tempest/core.py",
   "            if (iter_val - t0) % int(save_every) == 0 and iter_val != t0:", "            if (iter_val - t0) % int(save_every) == 0 and iter_val != t0 and iter_val > 2:", ["C08"])
 m("state-update-from-dict-drops-current", "tempest/state_manager.py",
   "        if \"_current\" in state_dict:\n            self._current.update(state_dict[\"_current\"])\n        if \"_history\" in state_dict:\n            self._history.update(state_dict[\"_history\"])\n        if \"n_dim\" in state_dict:",
